@@ -119,6 +119,31 @@ func runReplay(path, scratch string) int {
 		fmt.Printf("finding: kind=%s what=%s\n  tree diff: %s\n", f.kind, f.what, f.treeDiff)
 	}
 
+	if len(fs) > 0 && r.Chain == nil {
+		// the same question in normalised form (see evaluator.explain)
+		_ = w.restore()
+
+		for _, v := range e.variants(mode, q) {
+			if err := w.useAlt(v.alt); err != nil {
+				break
+			}
+
+			kr, err := e.kernel(cs, v.q)
+			if err != nil {
+				break
+			}
+
+			var vf []finding
+			if cs.Mut {
+				vf = e.compareMut(cs, kr.rk, kr.kd, rv, vd)
+			} else {
+				vf = e.compareRO(cs, v.q, kr.rk, rv)
+			}
+
+			fmt.Printf("normalised (%s): kernel on %s -> %s ; still differs from avfs: %v\n", v.name, e.clean(v.q), e.clean(kr.rk.String()), len(vf) > 0)
+		}
+	}
+
 	if len(fs) > 0 {
 		return 1
 	}
